@@ -9,7 +9,9 @@ package verifrt
 import (
 	"encoding/json"
 	"fmt"
+	"hash/fnv"
 	"os"
+	"reflect"
 	"strconv"
 	"strings"
 )
@@ -25,8 +27,8 @@ type WriteRec struct {
 }
 
 var (
-	Writes   []WriteRec
-	mainDone bool
+	Writes      []WriteRec
+	mainDone    bool
 	unsupported []string
 )
 
@@ -37,9 +39,86 @@ var Stdout = &File{"stdout"}
 var Stderr = &File{"stderr"}
 
 func (f *File) Write(p []byte) (int, error) {
+	note("write " + f.name + " " + string(p))
 	S.Point("write " + f.name)
 	Writes = append(Writes, WriteRec{Thread: S.Cur(), Stream: f.name, Text: string(p), AfterMain: mainDone})
+	writesHash = mixs(writesHash, fmt.Sprint(S.Cur(), f.name, mainDone, string(p)))
 	return len(p), nil
+}
+
+// ---- state keys (for the explorer's pruning) ------------------------------------
+//
+// A thread's future is a function of the operations it has performed and the
+// values it has observed (hist), the shared objects the shims model (channel
+// contents, WaitGroup counters, mutex states), and - for the verdict - the
+// sequence of writes so far. Shared memory the shims do not see must not be
+// written after start-up; the harness checks that statically and does not
+// prune otherwise.
+var (
+	hist       = map[int]uint64{}
+	objs       []func() uint64
+	writesHash uint64
+	chans      = map[uintptr]*chanShadow{}
+)
+
+type chanShadow struct {
+	id    int
+	queue []string
+}
+
+func mixs(h uint64, s string) uint64 {
+	f := fnv.New64a()
+	var b [8]byte
+	for i := 0; i < 8; i++ {
+		b[i] = byte(h >> (8 * i))
+	}
+	f.Write(b[:])
+	f.Write([]byte(s))
+	return f.Sum64()
+}
+
+func note(s string) { hist[S.Cur()] = mixs(hist[S.Cur()], s) }
+
+// P is a scheduling point of the running thread; the label (operation and
+// operand) becomes part of the thread's history.
+func P(label string) { note(label); S.Point(label) }
+
+// B is a blocking scheduling point.
+func B(label string, cond func() bool) { note(label); S.Block(label, cond) }
+
+// Note records a value the running thread has observed.
+func Note(s string) { note(s) }
+
+// Register adds a shared object to the state key and returns its number.
+func Register(state func() uint64) int {
+	objs = append(objs, state)
+	return len(objs)
+}
+
+func stateKey() uint64 {
+	h := mixs(14695981039346656037, fmt.Sprint("cur", S.cur, "mainDone", mainDone))
+	for _, t := range S.threads {
+		h = mixs(h, fmt.Sprint(t.id, t.done, t.started, hist[t.id]))
+	}
+	for i, o := range objs {
+		h = mixs(h, fmt.Sprint("obj", i, o()))
+	}
+	h = mixs(h, fmt.Sprint("w", writesHash))
+	if h == 0 {
+		h = 1
+	}
+	return h
+}
+
+func shadow[T any](ch chan T) *chanShadow {
+	p := reflect.ValueOf(ch).Pointer()
+	sh, ok := chans[p]
+	if !ok {
+		sh = &chanShadow{}
+		chans[p] = sh
+		sh.id = Register(func() uint64 { return mixs(uint64(len(sh.queue)), strings.Join(sh.queue, "\x00")) })
+	}
+	return sh
 }
 func (f *File) WriteString(s string) (int, error) { return f.Write([]byte(s)) }
 func (f *File) Close() error                      { return nil }
@@ -52,8 +131,10 @@ var threadNo int
 // Go replaces the go statement.
 func Go(fn func()) {
 	threadNo++
-	S.Go("g"+strconv.Itoa(threadNo), fn)
-	S.Point("go")
+	id := S.Go("g"+strconv.Itoa(threadNo), fn)
+	// the new thread's identity is its creator's history at the moment of creation
+	hist[id] = mixs(hist[S.Cur()], "spawn "+strconv.Itoa(threadNo))
+	P("go " + strconv.Itoa(threadNo))
 }
 
 // Send replaces `ch <- v` on a buffered channel.
@@ -63,8 +144,10 @@ func Send[T any](ch chan T, v T) {
 		ch <- v
 		return
 	}
-	S.Block("send", func() bool { return len(ch) < cap(ch) })
+	sh := shadow(ch)
+	B("send #"+strconv.Itoa(sh.id)+" "+fmt.Sprint(v), func() bool { return len(ch) < cap(ch) })
 	ch <- v
+	sh.queue = append(sh.queue, fmt.Sprint(v))
 }
 
 // Recv replaces `<-ch` on a buffered channel.
@@ -73,8 +156,14 @@ func Recv[T any](ch chan T) T {
 		unsupported = append(unsupported, "receive on unbuffered channel")
 		return <-ch
 	}
-	S.Block("recv", func() bool { return len(ch) > 0 })
-	return <-ch
+	sh := shadow(ch)
+	B("recv #"+strconv.Itoa(sh.id), func() bool { return len(ch) > 0 })
+	v := <-ch
+	if len(sh.queue) > 0 {
+		sh.queue = sh.queue[1:]
+	}
+	note("got " + fmt.Sprint(v))
+	return v
 }
 
 // Unsupported records a construct the rewriter does not model.
@@ -101,6 +190,9 @@ func RunMain(mainFn func()) {
 		}
 	}
 	S = New(prefix)
+	if os.Getenv("XV_SCHED_KEYS") != "" {
+		S.KeyFn = stateKey
+	}
 	S.Go("main", func() {
 		mainFn()
 		mainDone = true // in a real process everything still running is killed now
